@@ -110,13 +110,15 @@ Section Spans.
   (* ---- NumPy-array spans (the fallback lookup; since fix a094259 a built-in int) ---- *)
   Theorem arr_has_is_c10 ls k l : span_has (SpanArr ls k) l = c10_has ct (Locate.SArr (map tr_label ls)) l.
   Proof.
-    unfold c10_has. cbn [span_has Locate.span_contains]. unfold Locate.arr_eq.
-    rewrite existsb_id_map. rewrite <- existsb_tr. reflexivity.
+    unfold c10_has. cbn [span_has Locate.span_contains]. rewrite <- existsb_tr. reflexivity.
   Qed.
 
   Theorem arr_locate_is_c10 ls l : span_locate (SpanArr ls PyInt) l = c10_locate gl (Locate.SArr (map tr_label ls)) l.
   Proof.
     unfold c10_locate. rewrite LocateFacts.locate_SArr. unfold Locate.fallback, Locate.arr_eq.
+    replace (map (fun y => Locate.label_eqb (Locate.obj_cast y) (tr_label l)) (map tr_label ls))
+      with (map (fun y => Locate.label_eqb y (tr_label l)) (map tr_label ls))
+      by (rewrite !map_map; apply map_ext; intros y; destruct y; reflexivity).
     pose proof (true_positions_length l ls 0) as HL. pose proof (true_positions_head l ls 0) as HH.
     cbn [span_locate].
     destruct (Locate.true_positions 0 _) as [|j [|k r]]; cbn [List.length hd_error] in HL, HH; rewrite <- HH; try rewrite <- HL; reflexivity.
